@@ -99,7 +99,7 @@ def parse_pid_events(events):
 
 
 def check_votes(w, results, trace, counters, dontcare, tol=None,
-                check_outputs=True):
+                check_outputs=True, ambiguous_out=None, tie=None):
     """
     returns (violations, per_visit info list).  counters / dontcare are
     updated in place.
@@ -112,7 +112,8 @@ def check_votes(w, results, trace, counters, dontcare, tol=None,
     is32 = str(w.Xq.dtype) == 'float32'
     if tol is None:
         tol = 2e-5 if is32 else 1e-9
-    tie = 1e-5 if is32 else 1e-9
+    if tie is None:
+        tie = 1e-5 if is32 else 1e-9
 
     def bump(d, k, n=1):
         d[k] = d.get(k, 0) + n
@@ -163,7 +164,7 @@ def check_votes(w, results, trace, counters, dontcare, tol=None,
                 v = _check_visit(w, red, vis, ch, Xn, qcol, rcol, means,
                                  by_id, factor_lookup, n_iter, n_ru, tol,
                                  tie, counters, dontcare, visited,
-                                 node_genes, check_outputs)
+                                 node_genes, check_outputs, ambiguous_out)
                 out += v
                 if len(out) > 25:
                     return out, node_genes
@@ -194,7 +195,7 @@ def check_votes(w, results, trace, counters, dontcare, tol=None,
 
 def _check_visit(w, red, vis, ch, Xn, qcol, rcol, means, by_id,
                  factor_lookup, n_iter, n_ru, tol, tie, counters, dontcare,
-                 visited, node_genes, check_outputs):
+                 visited, node_genes, check_outputs, ambiguous_out=None):
     out = []
 
     def bump(d, k, n=1):
@@ -315,6 +316,10 @@ def _check_visit(w, red, vis, ch, Xn, qcol, rcol, means, by_id,
                 lo[i, c] += 1
                 corr_sum[i, c] += best[i]
             bump(counters, 'votes_recomputed')
+    if ambiguous_out is not None:
+        for i, cid in enumerate(cells):
+            if amb_any[i]:
+                ambiguous_out.add((cid, pkey))
     if not check_outputs:
         return out
     # compare with the output
